@@ -668,10 +668,29 @@ class Tr:
     def _inline(self, s, call, rest):
         f = self._find_helper(self._helper_name(call))
         params = [a for a in f.args.args if a.arg not in ("self", "cls")]
-        if len(params) != len(call.args) or call.keywords:
-            raise Unsupported(f"call of helper {f.name} with keywords / defaults")
+        if f.args.vararg or f.args.kwarg or f.args.kwonlyargs or f.args.posonlyargs or len(call.args) > len(params) \
+                or any(isinstance(a, ast.Starred) for a in call.args) or any(k.arg is None for k in call.keywords):
+            raise Unsupported(f"call of helper {f.name}: argument passing")
+        given = {a.arg: v for a, v in zip(params, call.args)}
+        for k in call.keywords:
+            if k.arg in given or k.arg not in {a.arg for a in params}:
+                raise Unsupported(f"call of helper {f.name}: keyword {k.arg}")
+            given[k.arg] = k.value
+        defaults = dict(zip([a.arg for a in params][len(params) - len(f.args.defaults):], f.args.defaults))
+        for a in params:
+            if a.arg not in given:
+                if a.arg not in defaults or not isinstance(defaults[a.arg], ast.Constant):
+                    raise Unsupported(f"call of helper {f.name}: no value for {a.arg}")
+                given[a.arg] = defaults[a.arg]
+        import copy as _copy
+
+        stored = {n.id for n in ast.walk(f) if isinstance(n, ast.Name) and isinstance(n.ctx, ast.Store)}
+        # a parameter that is never re-bound and whose argument is a constant or an attribute chain is substituted
+        # (so `status.value` with status=StatusCode.X reads `StatusCode.X.value`, as it did before the extraction)
+        subst = {a.arg: given[a.arg] for a in params
+                 if a.arg not in stored and (isinstance(given[a.arg], (ast.Constant, ast.JoinedStr)) or (isinstance(given[a.arg], ast.Attribute) and self.dotted(given[a.arg]) is not None))}
         binds = []
-        for a, v in zip(params, call.args):
+        for a, v in ((a, given[a.arg]) for a in params if a.arg not in subst):
             if isinstance(v, ast.Name) and v.id == a.arg:
                 continue
             if isinstance(v, ast.Name) and any(k.startswith(v.id + ".") for k in list(self.rename) + list(self.types)):
@@ -684,6 +703,12 @@ class Tr:
         import copy
 
         fbody = copy.deepcopy(list(f.body))
+        if subst:
+            class Arg(ast.NodeTransformer):
+                def visit_Name(self_, node):
+                    return _copy.deepcopy(subst[node.id]) if node.id in subst and isinstance(node.ctx, ast.Load) else node
+
+            fbody = [Arg().visit(st) for st in fbody]
         # locals of the helper that would shadow a name the caller's translation already uses (a parameter of the Lean definition
         # or a renamed attribute) get a fresh name
         taken = {v for v in self.rename.values() if v.isidentifier()} | {k for k in self.types if k.isidentifier()}
@@ -706,6 +731,10 @@ class Tr:
                 def visit_Call(self_, node):
                     return ast.Name(id=tmp, ctx=ast.Load()) if node is call else self_.generic_visit(node)
 
+            # work on a copy: the statement may be shared by both branches of an `if` whose continuation was duplicated
+            idx = next(i for i, n in enumerate(ast.walk(s)) if n is call)
+            s = copy.deepcopy(s)
+            call = list(ast.walk(s))[idx]
             new_s = Sub().visit(s)
             body = self._splice(fbody, [new_s] + list(rest), tmp)
         return binds + body
@@ -962,7 +991,7 @@ SPECS = [
          rename={"self.auth_tokens": "auth_tokens", "self.max_size": "max_size", "self.allowed_types": "allowed_types", "request.token": "token",
                  "request.size": "size", "request.mime_type": "mime_type", "StatusCode.BAD_REQUEST.value": "59", "StatusCode.CLIENT_CERT_REQUIRED.value": "60",
                  "StatusCode.PERMANENT_FAILURE.value": "50"},
-         ctors={"GeminiResponse": (None, {"status": "status"}, {}, ("meta",))},
+         ctors={"GeminiResponse": (None, {"status": "status"}, {}, ("meta", "body"))},
          stop_src=("request.is_delete()", "None"),
          types={"self.auth_tokens": "list", "self.allowed_types": "optlist", "request.token": "optstr", "request.mime_type": "str", "request.size": "num", "self.max_size": "num"}),
     dict(name="followRedirects", file="client/session.py", cls="GeminiClient", func="_get_with_redirects", mode="except", fuel="(w, .error .fuel)", thread="w",
